@@ -20,7 +20,7 @@ ASSUMPTIONS = ["reference = torch.optim algorithms as documented: Adam/AdamW neg
                "the learning rate is a public attribute (`opt.lr`); when it exists and equals the constructed value, histories may reassign it between steps "
                "(the only way to run a schedule with this library) and every later step must use the current value; signature suffix :after-lr-reassigned",
                "tolerance 1e-11 relative to max(1,|theta|) per comparison in float64, 2e-4 in float32 (model re-synchronised to the float32 data after each step)"]
-SHARD_TIMEOUT = {"quick": 600, "thorough": 1800}
+SHARD_TIMEOUT = {"quick": 900, "thorough": 3600}
 
 
 def gen_cases(tier, seed):
